@@ -331,16 +331,16 @@ fn judge(s: &Spec, idx: u64, rec: &mut Recorder) {
                                 for _ in 0..k {
                                     let _ = it.next();
                                 }
-                                let c = it.clone().count();
+                                let c = it.clone().take(total + 3).count();
                                 if c != total - k {
                                     return Err(format!("after {} next() calls count() says {} of {} TLVs are left", k, c, total));
                                 }
-                                match (it.clone().last(), s.tlvs.last()) {
+                                match (it.clone().take(total + 3).last(), s.tlvs.last()) {
                                     (None, _) if k == total => {}
                                     (Some(Ok(t)), Some((kind, _, b))) if k < total && t.kind == *kind && t.value.as_ref() == b.bytes().as_slice() => {}
                                     (other, _) => return Err(format!("after {} next() calls last() gives {:?}", k, other.map(|r| r.map(|t| (t.kind, t.value.len())).map_err(|e| format!("{:?}", e))))),
                                 }
-                                let rest: Vec<(u8, usize)> = it.clone().filter_map(|r| r.ok()).map(|t| (t.kind, t.value.len())).collect();
+                                let rest: Vec<(u8, usize)> = it.clone().take(total + 3).filter_map(|r| r.ok()).map(|t| (t.kind, t.value.len())).collect();
                                 let want_rest: Vec<(u8, usize)> = s.tlvs[k..].iter().map(|(kind, _, b)| (*kind, b.len)).collect();
                                 if rest != want_rest {
                                     return Err(format!("after {} next() calls the rest of the sequence is {:?}, written {:?}", k, &rest[..rest.len().min(6)], &want_rest[..want_rest.len().min(6)]));
